@@ -223,6 +223,34 @@ VRT_REGISTER(reg_sf) {
         VRT_CHECK(Counted::live() == 0, "shared_future/value-lifetime", "%ld stored values alive at the end", (long)Counted::live());
         vrt_outcome("ok");
     });
+    // reference result: every copy refers to the very object the resolver supplied (resolved by another thread)
+    vrt::add("sf_reference_identity", [] {
+        static Counted target(7);
+        {
+            using SFR = cocls::shared_future<Counted &>;
+            cocls::promise<Counted &> saved;
+            SFR a([&](cocls::promise<Counted &> p) { saved = std::move(p); });
+            SFR b = a;
+            vstd::thread rt([&] {
+                vrt_label("resolver");
+                saved(target);
+            });
+            a.sync();
+            Counted &ra = a.value();
+            rt.join();
+            SFR c = b;
+            Counted &rb = b.value();
+            Counted &rc = c.value();
+            VRT_CHECK(&ra == &target && &rb == &target && &rc == &target, "shared_future/different-results", "copies of a reference result refer to %p %p %p, the resolver supplied %p", (void *)&ra,
+                      (void *)&rb, (void *)&rc, (void *)&target);
+            target.a = 8;
+            target.b = ~8L;
+            VRT_CHECK(b.value().a == 8, "shared_future/different-results", "a change of the referred object is not seen through a copy");
+            target.a = 7;
+            target.b = ~7L;
+        }
+        vrt_outcome("ok");
+    });
     // copy-before-init: copies of a default-constructed shared_future are independent empty handles
     vrt::add("sf_copy_before_init", [] {
         SF a;
